@@ -395,6 +395,7 @@ fn sweep_scenario(idx: usize, full: bool) -> Scenario {
                 client: 0,
                 plan: Plan::default(),
                 must_succeed: true,
+                spelling: 0,
             },
             Op::Query {
                 client: 0,
